@@ -24,6 +24,9 @@ pub struct Case {
     pub period_s: u32,
     pub grid_ms: u32,
     pub phases: Vec<(Kind, u32)>,
+    /// stop-point sweep (q, cold factor, period): for EVERY k in 1..=2p+3 a fresh rule is saturated for k seconds,
+    /// left idle for 2p (+ extra) seconds and must then be cold again
+    pub sweep: (u32, u32, u32, u32),
 }
 
 pub fn decode(u: &mut Bytes) -> Case {
@@ -82,7 +85,13 @@ pub fn decode(u: &mut Bytes) -> Case {
     if phases.is_empty() {
         phases.push((Kind::Saturating, (2 * p + 2).min(budget)));
     }
-    Case { q, cold_factor, period_s, grid_ms, phases }
+    // drawn from the tail: the layout above stays what it was
+    let sc = [2u32, 3, 4, 0][u.tail_choice(4)];
+    let sc_eff = if sc == 0 { 3 } else { sc };
+    let sq = (2 * sc_eff).max(4 + u.tail_choice(60) as u32);
+    let sp = 1 + u.tail_choice(6) as u32;
+    let extra_idle = [0u32, 0, 1, 3][u.tail_choice(4)];
+    Case { q, cold_factor, period_s, grid_ms, phases, sweep: (sq, sc, sp, extra_idle) }
 }
 
 impl Property for C08 {
@@ -91,12 +100,12 @@ impl Property for C08 {
     }
     fn budget(&self, tier: Tier) -> Budget {
         match tier {
-            Tier::Quick => Budget { cases: 24, shards: 16, min_len: 16, max_len: 48 },
+            Tier::Quick => Budget { cases: 40, shards: 16, min_len: 16, max_len: 48 },
             Tier::Thorough => Budget { cases: 600, shards: 16, min_len: 16, max_len: 48 },
         }
     }
     fn rule(&self) -> String {
-        "bytes -> WarmUp/Reject rule on the default 1 s window (q 30..500 with q >= 10c, cold factor 0 (default 3) or 2..6, period 1..20 s) and a demand profile of 1-7 phases (saturating: ceil(q*grid/1000)+1 requests per grid tick; mid: q/2 per second; below: floor(q/c)-2 per second evenly spaced; idle), phases starting on wall-second boundaries, arrival grid 1..20 ms re-anchored every second, total <= 5p+30 virtual seconds; oracle = trajectory invariants from the statement over A_k (admissions in wall second k): never more than q in a bucket-aligned window; saturating: A_k >= floor(q/c)-1, A_{k+1} >= A_k - 1, cold start A_1 in [floor(q/c)-1, ceil(q/c)+1], A_k >= q-1 reached within 2p+2 s and kept; cold again after >= 2p idle seconds; below q/c demand is never rejected; non-trivial = a saturating phase >= p seconds and an idle gap >= 2p followed by more traffic; distinct = distinct decoded cases".into()
+        "bytes -> WarmUp/Reject rule on the default 1 s window (q 30..500 with q >= 10c, cold factor 0 (default 3) or 2..6, period 1..20 s) and a demand profile of 1-7 phases (saturating: ceil(q*grid/1000)+1 requests per grid tick; mid: q/2 per second; below: floor(q/c)-2 per second evenly spaced; idle), phases starting on wall-second boundaries, arrival grid 1..20 ms re-anchored every second, total <= 5p+30 virtual seconds; oracle = trajectory invariants from the statement over A_k (admissions in wall second k): never more than q in a bucket-aligned window; saturating: A_k >= floor(q/c)-1, A_{k+1} >= A_k - 1, cold start A_1 in [floor(q/c)-1, ceil(q/c)+1], A_k >= q-1 reached within 2p+2 s and kept; cold again after >= 2p idle seconds; below q/c demand is never rejected; plus, per case, a stop-point sweep on a small rule (q 4..63, c in {2,3,4,default}, p 1..6): for every k in 1..=2p+3 a fresh rule is saturated for exactly k seconds, idle for 2p(+0/1/3) seconds and must then admit about q/c in its first saturating second; non-trivial = a saturating phase >= p seconds and an idle gap >= 2p followed by more traffic; distinct = distinct decoded cases".into()
     }
     fn assumptions(&self) -> Vec<String> {
         vec![
@@ -112,8 +121,69 @@ impl Property for C08 {
     }
 }
 
+/// "After an idle period of at least 2*p seconds it is cold again" must hold wherever the demand stopped: for every
+/// k in 1..=2p+3 a fresh rule is saturated for exactly k wall seconds, left idle, and offered saturating demand again.
+fn stop_sweep(case: &Case) -> Result<u64, (String, String)> {
+    let (q, cf, p, extra_idle) = (case.sweep.0 as u64, case.sweep.1, case.sweep.2 as u64, case.sweep.3 as u64);
+    let c = if cf == 0 { 3 } else { cf as u64 };
+    let (floor_qc, ceil_qc) = (q / c, (q + c - 1) / c);
+    let grid = 50u64;
+    let per_tick = (q * grid + 999) / 1000 + 1;
+    let mut builds = 0u64;
+    for k in 1..=(2 * p + 3) {
+        let t0 = clock::new_case_epoch();
+        let res = util::fresh_name("c08s");
+        flow::load_rules(vec![Arc::new(flow::Rule {
+            resource: res.clone(),
+            threshold: q as f64,
+            calculate_strategy: flow::CalculateStrategy::WarmUp,
+            control_strategy: flow::ControlStrategy::Reject,
+            warm_up_period_sec: p as u32,
+            warm_up_cold_factor: cf,
+            ..Default::default()
+        })]);
+        let mut second = |base: u64| -> u64 {
+            let mut adm = 0u64;
+            let mut tick = 0u64;
+            while tick * grid < 1000 {
+                clock::set_ms(base + tick * grid);
+                for _ in 0..per_tick {
+                    builds += 1;
+                    if let Ok(e) = build(Req::new(&res, 1)) {
+                        e.exit();
+                        adm += 1;
+                    }
+                }
+                tick += 1;
+            }
+            adm
+        };
+        let mut a: Vec<u64> = Vec::new();
+        for s in 0..k {
+            a.push(second(t0 + s * 1000));
+        }
+        let idle = 2 * p + extra_idle;
+        let after = second(t0 + (k + idle) * 1000);
+        if after + 1 < floor_qc || after > ceil_qc + 1 {
+            return Err((
+                "cold-start-rate|after-idle".into(),
+                format!(
+                    "stop-point sweep, rule q={} c={} p={}: saturating demand for {} s (admitted per second {:?}), idle for {} s >= 2p, then the first saturating second admitted {}, expected about q/c = {}..{}",
+                    q, c, p, k, a, idle, after, floor_qc, ceil_qc
+                ),
+            ));
+        }
+    }
+    Ok(builds)
+}
+
 pub fn run_case(case: &Case, cfg: &RunCfg) -> Verdict {
     const ID: &str = "C08";
+    util::reset_all();
+    let sweep_builds = match stop_sweep(case) {
+        Ok(n) => n,
+        Err((key, detail)) => fail!(ID, "cold-start-rate", key, case, "{}", detail),
+    };
     util::reset_all();
     let t0 = clock::new_case_epoch(); // multiple of 10 s, hence of 1 s
     let res = util::fresh_name("c08");
@@ -272,6 +342,6 @@ pub fn run_case(case: &Case, cfg: &RunCfg) -> Verdict {
         digest: digest_of(case),
         decoded: if cfg.want_decoded { serde_json::to_value(case).ok() } else { None },
         known_hits: vec![],
-        counters: vec![("builds", builds)],
+        counters: vec![("builds", builds), ("stop_sweep_builds", sweep_builds)],
     })
 }
